@@ -136,14 +136,16 @@ func (c *C02) Do(in *hub.Instance, gg Ghost, op engine.Op, st *engine.Step) {
 		}
 		in.ValReturn(int(op.I[0]), p)
 		st.Obs = "ret"
+	// staking transactions: the validator's tokens change at once, its last power / status and the last total power when
+	// the staking EndBlocker of this block runs (which app.go places before mhub2's)
 	case "Unbond":
-		in.ValUnbond(int(op.I[0]))
+		in.ValChangeDeferred(int(op.I[0]), in.Staking.Vals[op.I[0]].Power, 2)
 		st.Obs = "u"
 	case "Rebond":
-		in.ValRebond(int(op.I[0]))
+		in.ValChangeDeferred(int(op.I[0]), in.Staking.Vals[op.I[0]].Power, 1)
 		st.Obs = "r"
 	case "SetPower":
-		in.ValSetPower(int(op.I[0]), op.I[1])
+		in.ValChangeDeferred(int(op.I[0]), op.I[1], 0)
 		st.Obs = "p"
 	case "Vote":
 		v, n, va, kind := op.I[0], op.I[1], op.I[2], op.I[3]
